@@ -623,12 +623,14 @@ class PdoVariable(variable.Variable):
                      self.name, binascii.hexlify(data), self.pdo_parent.name)
 
         if bit_offset or self.length % 8 or self.length < len(self.od):
-            # Replace exactly the bits of this field in the whole message
+            # Replace exactly the bits of this field, touching only the
+            # bytes of the message it lies in
             mask = (1 << self.length) - 1
             value = int.from_bytes(data, "little") & mask
-            message = int.from_bytes(self.pdo_parent.data, "little")
-            message = (message & ~(mask << self.offset)) | (value << self.offset)
-            self.pdo_parent.data[:] = message.to_bytes(len(self.pdo_parent.data), "little")
+            end = (self.offset + self.length + 7) // 8
+            field = int.from_bytes(self.pdo_parent.data[byte_offset:end], "little")
+            field = (field & ~(mask << bit_offset)) | (value << bit_offset)
+            self.pdo_parent.data[byte_offset:end] = field.to_bytes(end - byte_offset, "little")
         else:
             self.pdo_parent.data[byte_offset:byte_offset + len(data)] = data
 
